@@ -27,10 +27,10 @@ macro_rules! with_n {
 }
 
 fn try_into_array_n<T, const N: usize>(s: &[T], out: &mut Out, elem: &str) {
-    let imp = match ks::try_into_array::<T, N>(s) {
+    let imp = catch(|| match ks::try_into_array::<T, N>(s) {
         Ok(a) => view(s, &a[..]),
         Err(_) => "none".into(),
-    };
+    });
     let ora = match <&[T; N]>::try_from(s) {
         Ok(a) => view(s, &a[..]),
         Err(_) => "none".into(),
@@ -41,10 +41,10 @@ fn try_into_array_n<T, const N: usize>(s: &[T], out: &mut Out, elem: &str) {
 fn try_into_array_mut_n<T: Clone, const N: usize>(s: &[T], out: &mut Out, elem: &str) {
     let mut v = s.to_vec();
     let (bp, bl) = (v.as_ptr(), v.len());
-    let imp = match ks::try_into_array_mut::<T, N>(&mut v) {
+    let imp = catch(|| match ks::try_into_array_mut::<T, N>(&mut v) {
         Ok(a) => view_raw(bp, bl, a.as_ptr(), a.len()),
         Err(_) => "none".into(),
-    };
+    });
     let mut w = s.to_vec();
     let (bp, bl) = (w.as_ptr(), w.len());
     let ora = match <&mut [T; N]>::try_from(&mut w[..]) {
@@ -99,60 +99,56 @@ fn run_type<T: Clone + std::panic::RefUnwindSafe>(elem: &str, mk: &dyn Fn(usize)
         let s: &[T] = &v;
         let idx = indices(len);
         for &i in &idx {
-            out.emit(&format!("s.get {} {} {}", elem, len, i), &one(s, ks::get(s, i)), &one(s, s.get(i)), true);
-            out.emit(&format!("s.get_from {} {} {}", elem, len, i), &opt_view(s, ks::get_from(s, i)), &opt_view(s, s.get(i..)), true);
-            out.emit(&format!("s.get_up_to {} {} {}", elem, len, i), &opt_view(s, ks::get_up_to(s, i)), &opt_view(s, s.get(..i)), true);
-            out.emit(&format!("s.slice_from {} {} {}", elem, len, i), &view(s, ks::slice_from(s, i)), &view(s, s.get(i..).unwrap_or(&[])), true);
-            out.emit(&format!("s.slice_up_to {} {} {}", elem, len, i), &view(s, ks::slice_up_to(s, i)), &view(s, s.get(..i).unwrap_or(s)), true);
+            out.emit(&format!("s.get {} {} {}", elem, len, i), &catch(|| one(s, ks::get(s, i))), &one(s, s.get(i)), true);
+            out.emit(&format!("s.get_from {} {} {}", elem, len, i), &catch(|| opt_view(s, ks::get_from(s, i))), &opt_view(s, s.get(i..)), true);
+            out.emit(&format!("s.get_up_to {} {} {}", elem, len, i), &catch(|| opt_view(s, ks::get_up_to(s, i))), &opt_view(s, s.get(..i)), true);
+            out.emit(&format!("s.slice_from {} {} {}", elem, len, i), &catch(|| view(s, ks::slice_from(s, i))), &view(s, s.get(i..).unwrap_or(&[])), true);
+            out.emit(&format!("s.slice_up_to {} {} {}", elem, len, i), &catch(|| view(s, ks::slice_up_to(s, i))), &view(s, s.get(..i).unwrap_or(s)), true);
             {
-                let (a, b) = ks::split_at(s, i);
+                let imp_sa = catch(|| { let (a, b) = ks::split_at(s, i); pair(view(s, a), view(s, b)) });
                 let (oa, ob) = s.split_at_checked(i).unwrap_or((s, &[]));
-                out.emit(&format!("s.split_at {} {} {}", elem, len, i), &pair(view(s, a), view(s, b)), &pair(view(s, oa), view(s, ob)), true);
+                out.emit(&format!("s.split_at {} {} {}", elem, len, i), &imp_sa, &pair(view(s, oa), view(s, ob)), true);
             }
             // `_mut` twins: observe which elements the returned reference addresses
             {
                 let mut m = v.clone();
                 let (bp, bl) = (m.as_ptr(), m.len());
-                let imp = match ks::get_mut(&mut m, i) { None => "none".to_string(), Some(r) => view_raw(bp, bl, r as *const T, 1) };
+                let imp = catch(|| match ks::get_mut(&mut m, i) { None => "none".to_string(), Some(r) => view_raw(bp, bl, r as *const T, 1) });
                 out.emit(&format!("s.get.mut {} {} {}", elem, len, i), &imp, &one(s, s.get(i)), true);
                 let mut m = v.clone();
                 let (bp, bl) = (m.as_ptr(), m.len());
-                let imp = match ks::get_from_mut(&mut m, i) { None => "none".to_string(), Some(r) => view_raw(bp, bl, r.as_ptr(), r.len()) };
+                let imp = catch(|| match ks::get_from_mut(&mut m, i) { None => "none".to_string(), Some(r) => view_raw(bp, bl, r.as_ptr(), r.len()) });
                 out.emit(&format!("s.get_from.mut {} {} {}", elem, len, i), &imp, &opt_view(s, s.get(i..)), true);
                 let mut m = v.clone();
                 let (bp, bl) = (m.as_ptr(), m.len());
-                let imp = match ks::get_up_to_mut(&mut m, i) { None => "none".to_string(), Some(r) => view_raw(bp, bl, r.as_ptr(), r.len()) };
+                let imp = catch(|| match ks::get_up_to_mut(&mut m, i) { None => "none".to_string(), Some(r) => view_raw(bp, bl, r.as_ptr(), r.len()) });
                 out.emit(&format!("s.get_up_to.mut {} {} {}", elem, len, i), &imp, &opt_view(s, s.get(..i)), true);
                 let mut m = v.clone();
                 let (bp, bl) = (m.as_ptr(), m.len());
-                let r = ks::slice_from_mut(&mut m, i);
-                let imp = view_raw(bp, bl, r.as_ptr(), r.len());
+                let imp = catch(|| { let r = ks::slice_from_mut(&mut m, i); view_raw(bp, bl, r.as_ptr(), r.len()) });
                 out.emit(&format!("s.slice_from.mut {} {} {}", elem, len, i), &imp, &view(s, s.get(i..).unwrap_or(&[])), true);
                 let mut m = v.clone();
                 let (bp, bl) = (m.as_ptr(), m.len());
-                let r = ks::slice_up_to_mut(&mut m, i);
-                let imp = view_raw(bp, bl, r.as_ptr(), r.len());
+                let imp = catch(|| { let r = ks::slice_up_to_mut(&mut m, i); view_raw(bp, bl, r.as_ptr(), r.len()) });
                 out.emit(&format!("s.slice_up_to.mut {} {} {}", elem, len, i), &imp, &view(s, s.get(..i).unwrap_or(s)), true);
                 let mut m = v.clone();
                 let (bp, bl) = (m.as_ptr(), m.len());
-                let (a, b) = ks::split_at_mut(&mut m, i);
-                let imp = pair(view_raw(bp, bl, a.as_ptr(), a.len()), view_raw(bp, bl, b.as_ptr(), b.len()));
+                let imp = catch(|| { let (a, b) = ks::split_at_mut(&mut m, i); pair(view_raw(bp, bl, a.as_ptr(), a.len()), view_raw(bp, bl, b.as_ptr(), b.len())) });
                 let (oa, ob) = s.split_at_checked(i).unwrap_or((s, &[]));
                 out.emit(&format!("s.split_at.mut {} {} {}", elem, len, i), &imp, &pair(view(s, oa), view(s, ob)), true);
             }
             for &j in &idx {
                 let e = j.min(len);
                 let st = i.min(e);
-                out.emit(&format!("s.get_range {} {} {} {}", elem, len, i, j), &opt_view(s, ks::get_range(s, i, j)), &opt_view(s, if i <= j { s.get(i..j) } else { None }), true);
-                out.emit(&format!("s.slice_range {} {} {} {}", elem, len, i, j), &view(s, ks::slice_range(s, i, j)), &view(s, &s[st..e]), true);
+                out.emit(&format!("s.get_range {} {} {} {}", elem, len, i, j), &catch(|| opt_view(s, ks::get_range(s, i, j))), &opt_view(s, if i <= j { s.get(i..j) } else { None }), true);
+                out.emit(&format!("s.slice_range {} {} {} {}", elem, len, i, j), &catch(|| view(s, ks::slice_range(s, i, j))), &view(s, &s[st..e]), true);
                 let mut m = v.clone();
                 let (bp, bl) = (m.as_ptr(), m.len());
-                let imp = match ks::get_range_mut(&mut m, i, j) { None => "none".to_string(), Some(r) => view_raw(bp, bl, r.as_ptr(), r.len()) };
+                let imp = catch(|| match ks::get_range_mut(&mut m, i, j) { None => "none".to_string(), Some(r) => view_raw(bp, bl, r.as_ptr(), r.len()) });
                 out.emit(&format!("s.get_range.mut {} {} {} {}", elem, len, i, j), &imp, &opt_view(s, if i <= j { s.get(i..j) } else { None }), true);
                 let mut m = v.clone();
                 let (bp, bl) = (m.as_ptr(), m.len());
-                let r = ks::slice_range_mut(&mut m, i, j);
-                let imp = view_raw(bp, bl, r.as_ptr(), r.len());
+                let imp = catch(|| { let r = ks::slice_range_mut(&mut m, i, j); view_raw(bp, bl, r.as_ptr(), r.len()) });
                 out.emit(&format!("s.slice_range.mut {} {} {} {}", elem, len, i, j), &imp, &view(s, &s[st..e]), true);
             }
         }
@@ -160,20 +156,20 @@ fn run_type<T: Clone + std::panic::RefUnwindSafe>(elem: &str, mk: &dyn Fn(usize)
         {
             let mut m = v.clone();
             let (bp, bl) = (m.as_ptr(), m.len());
-            let imp = match ks::first_mut(&mut m) { None => "none".to_string(), Some(r) => view_raw(bp, bl, r as *const T, 1) };
+            let imp = catch(|| match ks::first_mut(&mut m) { None => "none".to_string(), Some(r) => view_raw(bp, bl, r as *const T, 1) });
             out.emit(&format!("s.first.mut {} {}", elem, len), &imp, &one(s, s.first()), true);
             let mut m = v.clone();
             let (bp, bl) = (m.as_ptr(), m.len());
-            let imp = match ks::last_mut(&mut m) { None => "none".to_string(), Some(r) => view_raw(bp, bl, r as *const T, 1) };
+            let imp = catch(|| match ks::last_mut(&mut m) { None => "none".to_string(), Some(r) => view_raw(bp, bl, r as *const T, 1) });
             out.emit(&format!("s.last.mut {} {}", elem, len), &imp, &one(s, s.last()), true);
             let mut m = v.clone();
             let (bp, bl) = (m.as_ptr(), m.len());
-            let imp = match ks::split_first_mut(&mut m) { None => "none".to_string(), Some((f, r)) => pair(view_raw(bp, bl, f as *const T, 1), view_raw(bp, bl, r.as_ptr(), r.len())) };
+            let imp = catch(|| match ks::split_first_mut(&mut m) { None => "none".to_string(), Some((f, r)) => pair(view_raw(bp, bl, f as *const T, 1), view_raw(bp, bl, r.as_ptr(), r.len())) });
             let ora = match s.split_first() { None => "none".to_string(), Some((f, r)) => pair(view(s, core::slice::from_ref(f)), view(s, r)) };
             out.emit(&format!("s.split_first.mut {} {}", elem, len), &imp, &ora, true);
             let mut m = v.clone();
             let (bp, bl) = (m.as_ptr(), m.len());
-            let imp = match ks::split_last_mut(&mut m) { None => "none".to_string(), Some((f, r)) => pair(view_raw(bp, bl, f as *const T, 1), view_raw(bp, bl, r.as_ptr(), r.len())) };
+            let imp = catch(|| match ks::split_last_mut(&mut m) { None => "none".to_string(), Some((f, r)) => pair(view_raw(bp, bl, f as *const T, 1), view_raw(bp, bl, r.as_ptr(), r.len())) });
             let ora = match s.split_last() { None => "none".to_string(), Some((f, r)) => pair(view(s, core::slice::from_ref(f)), view(s, r)) };
             out.emit(&format!("s.split_last.mut {} {}", elem, len), &imp, &ora, true);
         }
